@@ -60,6 +60,11 @@ CLAIMED = {
   "Trusted: go/ssa, gosym interpreter, z3 (incl. its FP theory for the probability comparisons); models: proto.Marshal/Merge/Clone/Equal structural models, real errgroup/context/bb-storage buffer code interpreted. Outside the claim: PageRank power iteration and the range/sum of the probabilities it produces (unbounded float loop; not encodable), part 4 of the design (selector/learner linearity inside the scheduler: see C01-C06 status), finer-grained interleavings inside Get than whole-request overlap, seconds values of timeouts other than the listed boundaries (multiplication/division by 10^9 is not decided by any available solver).",
   "SMT-based symbolic execution of go/ssa (z3; floating-point theory for probability draws), bounded sequences, native replay",
   "DESIGN.md §4 C07"),
+ "C08": (
+  "Bounded symbolic model checking of the real code: BuildClient (Run, startExecution, stopExecution, applyExecutionUpdate, consumeExecutionUpdatesNonBlocking, touchSchedulerMayThinkExecuting) with its real executor goroutine and buffered update channel, for 2 (quick) / 3 (thorough) calls of Run under every combination of scheduler reply (execute one of two digests, idle, no change, RPC error, invalid timestamp; next synchronisation now or later), executor progress (nothing, progress update, completion with OK or non-OK status), timer versus update arrival, readiness failure, clock step and shutdown instant. Assertions inside the scheduler stub at every Synchronize: the reported action is the one asked for last, a completion carries that action's own response, prefer_being_idle after a non-OK completion and on every request once shutdown began; after every Run: never two executors live, the previous executor has fully stopped before the next starts, termination only when the scheduler cannot believe the worker is executing, cancellation handle and channel exist together; stopping the client stops the action.",
+  "Trusted: go/ssa, gosym interpreter/scheduler, time model; real context/timestamppb/digest code is interpreted. Outside the claim: LaunchWorkerThread's back-off loop (sleep/jitter), more than 3 Run calls, symbolic synchronisation instants.",
+  "symbolic execution of go/ssa with exhaustive bounded reply/progress sequences and engine-scheduled goroutines, native replay",
+  "DESIGN.md §4 C08"),
 }
 
 PENDING_REASON = "check not registered yet (framework under construction; see DESIGN.md §6 build order)"
